@@ -33,7 +33,8 @@ def cases(tier, seed):
     for i in range(n):
         yield {"mesh": gen.random_mesh(rng, 150 if tier == "quick" else 1200, families=["voronoi", "delaunay", "merged", "polyhedron", "cubed_sphere", "latlon_patch", "latlon_global", "clustered", "fine_patch", "refined", "sample"]),
                "dseed": int(rng.integers(0, 10**6)), "lead": [int(x) for x in rng.integers(1, 4, size=int(rng.integers(0, 3)))],
-               "source": str(rng.choice(["topology", "topology", "mpas_supplied", "mpas_plain", "topology_edge_tables"]))}
+               "source": str(rng.choice(["topology", "topology", "mpas_supplied", "mpas_plain", "topology_edge_tables"])),
+               "backend": str(rng.choice(["numpy", "numpy", "numpy", "dask_data", "dask_grid", "dask_both"]))}
 
 
 def run_case(ctx, case):
@@ -105,6 +106,9 @@ def run_case(ctx, case):
         bad = np.argwhere(~(np.abs(efd - wantf) <= DTOL(wantf)))
         ctx.check("edge_face_distances", efd.shape == (n_edge,) and len(bad) == 0, dict(sig0, n_face_vs_n_node="gt" if m.n_face > m.n_node else "le"),
                   None if not len(bad) else {"edge": int(bad[0][0]), "got": float(efd[bad[0][0]]), "want": float(wantf[bad[0][0]]), "boundary": bool(~interior[bad[0][0]]), "mesh": d})
+    if case.get("backend") in ("dask_grid", "dask_both"):
+        g.chunk()  # dask-backed grid variables from here on
+    ctx.observe("backend_" + case.get("backend", "numpy"))
     # data operators
     # two face centres inside the library's pole-snapping band (C04 sanctions it) are reported at the very same point: the
     # quotient difference / distance is undefined on such an edge, nothing is demanded there
@@ -128,7 +132,10 @@ def run_case(ctx, case):
             ndat = rng.normal(size=tuple(lead) + (n_node,)) if field == "random" else np.full(tuple(lead) + (n_node,), -1.25)
         fda = U.UxDataArray(fdat.copy(), dims=ldims + ["n_face"], uxgrid=g, name="f")
         nda = U.UxDataArray(ndat.copy(), dims=ldims + ["n_node"], uxgrid=g, name="n")
-        sig = dict(sig0, field=field, rank=len(lead) + 1)
+        backend = case.get("backend", "numpy")
+        if backend in ("dask_data", "dask_both"):
+            fda, nda = fda.chunk({"n_face": max(1, n_face // 3)}), nda.chunk({"n_node": max(1, n_node // 3)})
+        sig = dict(sig0, field=field, rank=len(lead) + 1, backend=backend)
 
         def ok_meta(r):
             return isinstance(r, U.UxDataArray) and tuple(r.dims) == tuple(ldims + ["n_edge"]) and r.uxgrid is g
